@@ -152,7 +152,7 @@ func (v RoundMJ) MarshalJSON() ([]byte, error) {
 func (v *RoundMJ) UnmarshalJSON(b []byte) error {
 	var a []interface{}
 	if err := stdjson.Unmarshal(b, &a); err != nil {
-		return err
+		return fmt.Errorf("RoundMJ.UnmarshalJSON received %q: %v", b, err)
 	}
 	if len(a) != 2 {
 		return fmt.Errorf("RoundMJ: want 2 elements")
